@@ -305,7 +305,10 @@ def oracle(ctx, case, f, p, dset_res):
             ctx.violate("sigma:clock", f"record {i}: code {code}, base {float(f['base_clk'])}: expected "
                         f"{float(f['base_clk'] ** code * C / 10**12)!r} m, parser {gs!r}", c)
             return
-    # Dataset form
+
+
+def oracle_dataset(ctx, case, f, p, dset_res):
+    recs = f["recs"]
     if dset_res[0] == "raises":
         ctx.violate(f"dataset:raises:{dset_res[1].split(':')[0]}", f"as_dataset() raises {dset_res[1]}", case)
         return
@@ -359,6 +362,7 @@ def one_file(ctx, impl, drv, f, corpus=False):
             ctx.disagree("sp3 entries / meta / dataset epoch", case, dd, "")
     if not corpus:
         oracle(ctx, case, f, p, dres)
+        oracle_dataset(ctx, case, f, p, dres)
 
 
 def run(ctx: Ctx):
